@@ -1,6 +1,7 @@
 import DrummerVerif.Lemmas.C04H
 import DrummerVerif.Lemmas.C04a
 import DrummerVerif.Lemmas.LoopSys
+import DrummerVerif.Lemmas.C04L
 /-!
 # C04 — the membership view only moves forward and mirrors the newest complete report
 
@@ -96,6 +97,26 @@ theorem version_bounded_by_reported :
         (∀ (ci : ShardInfo), ci ∈ nhi.shardInfo → ci.cci ≤ B) →
           MultiShard.update mc nhi = Outcome.ok mc' → ∀ (c : Shard), c ∈ mc'.shards → c.cci ≤ B :=
   @_root_.Drummer.update_cci_le
+
+/-! ### at most one replica per shard is marked leader: for every command history, whatever the reports look like -/
+
+theorem at_most_one_leader_id_over_histories :
+    ∀ (cs : List Cmd) (d : DB),
+      runCmds { } cs = Outcome.ok d → ∀ (c : Shard), c ∈ d.image.shards → Shard.Lead c :=
+  @_root_.Drummer.at_most_one_leader_id
+
+theorem one_report_keeps_one_leader_id :
+    ∀ (mc mc' : MultiShard) (nhi : NodeHostInfo),
+      (∀ (c : Shard), c ∈ mc.shards → Shard.Lead c) →
+        MultiShard.update mc nhi = Outcome.ok mc' → ∀ (c : Shard), c ∈ mc'.shards → Shard.Lead c :=
+  @_root_.Drummer.update_lead
+
+theorem one_leader_id_is_at_most_one_flagged_member :
+    ∀ (c : Shard),
+      List.Nodup (List.map (fun x => x.replicaId) c.replicas) →
+        Shard.Lead c → List.length (List.filter (fun x => x.isLeader) c.replicas) ≤ 1 :=
+  @_root_.Drummer.lead_count_le_one
+
 
 end C04
 end Drummer
